@@ -208,15 +208,18 @@ def shard(args):
         ms = [m for m in ms if m['fc'] in (1, 3, 0x10, 0x2B, 0x7F) or m['code'] in (1, 2, 3, 4)] if tier == 'quick' else ms
     nontriv = set()
     ms = [m for m in ms if len(pdu.encode(m)) <= 253]       # a message is at most one 253-byte PDU
-    for m in ms:
+    for m in (ms if tier == 'quick' else msgs_of(kind, fc, sub, tier)):
+        raw = pdu.encode(m)
+        if len(raw) > 253:
+            continue
         cname = bind.cls_name(m)
         acc.inc('evaluations')
         roundtrip(acc, m, side, cname)
-        nontriv.add(pdu.encode(m))
+        nontriv.add(raw)
     acc.inc('distinct_pdus', len(nontriv))
     # histories
-    k = 6 if tier == 'quick' else 24
-    depth = 3 if tier == 'quick' else 4
+    k = 6 if tier == 'quick' else 40
+    depth = 3 if tier == 'quick' else 5
     sel = pick(ms, k)
     if kind == 'exc':     # decode() of a body cannot change the function code: keep it fixed per object
         sel = pick([m for m in ms if m['fc'] == 3], k)
@@ -242,8 +245,8 @@ def run(tier, seed):
                          'histories on one object; transitions = real encode()/decode() calls; plus one round-trip + fixed-point '
                          'evaluation per enumerated message (evaluations)',
                     bounds='histories over {encode, decode(x1), decode(x2)} to depth %d on %d objects per class; '
-                           'round trip over the quick alphabets of harness/gen.py for all %d classes (diagnostic sub-classes separately)'
-                           % (3 if tier == 'quick' else 4, 6 if tier == 'quick' else 24, len(shards))),
+                           'round trip over the %s alphabets of harness/gen.py (the same as C01) for all %d classes (diagnostic sub-classes separately)'
+                           % (3 if tier == 'quick' else 5, 6 if tier == 'quick' else 40, tier, len(shards))),
                 assumptions=['purity is judged on the bytes encode() returns (private bookkeeping attributes may change)',
                              'accumulation is judged differentially against a fresh object produced by the decoder factory'])
 
